@@ -128,6 +128,35 @@ class StandInChannel:
         self.eof_pending = False
         self.session: Any = None
         self.logger = None
+        # write side, as far as drain() can see it
+        self.session_paused = False     # the channel told the session pause_writing()
+        self.send_closed = False        # closed for sending (CLOSE sent / the peer's CLOSE received)
+        self.discarded = False          # unsent data was thrown away when the channel closed
+
+    # -- write side ---------------------------------------------------------------------------------------------
+    def pause_session(self) -> None:
+        self.session_paused = True
+        self.session.pause_writing()
+
+    def resume_session(self) -> None:
+        self.session_paused = False
+        self.session.resume_writing()
+
+    def peer_close(self, unsent: bool) -> None:
+        """the writer's side of SSHChannel._process_close while connection_lost is still held back (received data
+        queued behind a paused reader): _close_send() discards the send buffer - a session paused for writing has
+        more than the low-water mark in it - and _pause_resume_writing() then resumes that session"""
+        if unsent or self.session_paused:
+            self.discarded = True
+        self.send_closed = True
+        if self.session_paused:
+            self.resume_session()
+
+    def is_closing(self) -> bool:
+        return self.send_closed
+
+    def was_write_discarded(self) -> bool:
+        return self.discarded
 
     def get_connection(self) -> Any:
         return None
